@@ -90,6 +90,24 @@ CLAIMED["C17"] = dict(
     text='Proved on the model; the oracle diffs every parameter of every subspace before/after each op on the implementation.',
     note="Trusted: Coq kernel, extraction, OCaml/Go drivers incl. the projection of raw store bytes to the compared state and the emulated Tendermint set; ed25519/amino/IAVL as used by the real code. The L1 model is a hand transcription of x/auth, x/pos, x/gov and the baseapp block cycle (single denomination); Go panics outside runTx are [None] (block aborts).",
     design_ref="§6 C17")
+CLAIMED["C12"] = dict(
+    engine="ms",
+    technique='Coq proof on the L2 multistore model (a commit adds exactly the new version, removes exactly the released one, leaves the others untouched) + shadow-copy oracle and correspondence on rootmulti/iavl/transient',
+    text='Proved on the model of rootmulti + iavl wrapper over a contract-level IAVL: what SaveVersion + the pruning rule do to the set of versions on disk, that working-tree writes never touch the disk, transient reset. Checked on the implementation for every history: version +1, hash reported by LastCommitID and after reopen, content of every retained version, pruned versions unreadable, transient empty.',
+    note="Trusted: Coq kernel, extraction, OCaml/Go drivers, the crash-instrumented dbm.DB wrapper; tendermint/iavl v0.12.4 and tm-db are modelled by their contracts (one batch = one atomic write unit; IAVL node versions are not part of the model's hash). Known findings F8, F17a/b, F18a/b, F20 are listed in known_findings.json.",
+    design_ref="§6 C12")
+CLAIMED["C13"] = dict(
+    engine="ms",
+    technique='Coq proof with the crash points enumerated in the theorem (any prefix of the write units reopens the old version when keepRecent >= 1; refuted with a witness for keepRecent = 0) + crash injection after every DB write unit on the implementation',
+    text="Proved: after any prefix of a substore commit's atomic write units the previous version loads with its old content if keepRecent >= 1; the statement is false for keepRecent = 0 (witness = finding F8); replay onto an already saved version is idempotent. On the implementation every commit write unit of every history is used as a crash point on a MemDB wrapper, the store is reopened, compared with old/new shadow content, the block re-executed and its hash compared with an uninterrupted twin.",
+    note="Trusted: Coq kernel, extraction, OCaml/Go drivers, the crash-instrumented dbm.DB wrapper; tendermint/iavl v0.12.4 and tm-db are modelled by their contracts (one batch = one atomic write unit; IAVL node versions are not part of the model's hash). Known findings F8, F17a/b, F18a/b, F20 are listed in known_findings.json.",
+    design_ref="§6 C13")
+CLAIMED["C14"] = dict(
+    engine="ms",
+    technique='Coq proof (query at a retained height returns the value committed there regardless of later writes/commits; pruned/future heights return nothing) + proof verification against the app hash of every height on the implementation',
+    text='Proved on the model; Merkle proofs are an oracle of the model and are checked on the implementation: every returned proof is verified with the real ProofRuntime against the app hash of EVERY committed height (must verify for the queried height and only for it).',
+    note="Trusted: Coq kernel, extraction, OCaml/Go drivers, the crash-instrumented dbm.DB wrapper; tendermint/iavl v0.12.4 and tm-db are modelled by their contracts (one batch = one atomic write unit; IAVL node versions are not part of the model's hash). Known findings F8, F17a/b, F18a/b, F20 are listed in known_findings.json.",
+    design_ref="§6 C14")
 REASON_NOT_YET = "check not built yet in this round (design in DESIGN.md §6); will be claimed once its model, theorems and correspondence engine exist"
 
 def main():
@@ -124,6 +142,8 @@ def main():
              "kind_free_text": "differential run of types.Int/Uint/Dec/Coins against the extracted Coq model and exact specs"},
             {"name": "app", "path": "harness/cmd/app", "serves_properties": ["C02","C03","C04","C05","C06","C07","C08","C09","C10","C11","C17"],
              "kind_free_text": "real BaseApp+auth+pos+gov on MemDB driven through ABCI with an emulated Tendermint set; state decoded from raw stores after every op; compared with the extracted L1 model and checked by property oracles"},
+            {"name": "ms", "path": "harness/cmd/ms", "serves_properties": ["C12","C13","C14","C01"],
+             "kind_free_text": "rootmulti+iavl+transient over a crash-instrumented MemDB: write/commit/reopen/LoadVersion/query histories, crash after every write unit, uninterrupted twin"},
             {"name": "kv", "path": "harness/cmd/kv", "serves_properties": ["C15", "C16"],
              "kind_free_text": "random programs on random stackings of cachekv/prefix/gaskv/tracekv over MemDB vs the extracted Coq store model"},
         ],
